@@ -56,7 +56,14 @@ def generate(rng, tier):
         names = [o.name for _p, o in gen.all_opts(opts)]
         secs = [p for p, o in gen.all_opts(opts) if o.ty == "sec"]
         for _ in range(per):
-            lines = sl + ["X 0 0", "PB 0 " + hx(gen_text(rng, opts, 0)), "PB 0 " + hx(gen_text(rng, opts, 0))]
+            lines = sl + ["X 0 0"]
+            early = []
+            if rng.random() < 0.35:
+                # a filter installed BEFORE the sections of the text exist, and (below) replaced or kept afterwards:
+                # instances created in between must follow the context's filter of the time of printing
+                early = [(".", rng.sample(names, rng.randint(0, max(1, len(names) // 2))))]
+                lines.append("FL 0 . " + " ".join(hx(h) for h in early[0][1]))
+            lines += ["PB 0 " + hx(gen_text(rng, opts, 0)), "PB 0 " + hx(gen_text(rng, opts, 0))]
             # a few setter calls so that API-built states are printed, too
             for p, o in rng.sample(list(gen.all_opts(opts)), min(3, len(names))):
                 if o.ty == "int" and not o.is_list() and "|" not in p:
@@ -65,7 +72,7 @@ def generate(rng, tier):
                     lines.append("SS 0 %s 0 %s" % (hx(p), rng.choice([hx(b"v\"q"), "-", hx(b"${X}")])))
                 if o.is_list() and o.ty == "int" and "|" not in p:
                     lines.append("SL 0 %s%s" % (hx(p), "".join(" %d" % rng.randint(0, 9) for _ in range(rng.randint(0, 3)))))
-            filters = []
+            filters = list(early)
             if rng.random() < 0.6:
                 hide = rng.sample(names, rng.randint(1, max(1, len(names) // 2)))
                 filters.append((".", hide))
@@ -74,14 +81,22 @@ def generate(rng, tier):
                     hide = rng.sample(names, rng.randint(0, max(1, len(names) // 2)))
                     q = sp
                     filters.append((q, hide))
-            for sp, hide in filters[:7]:
+            filters = filters[:8]
+            for sp, hide in filters[len(early):]:
                 lines.append("FL 0 %s %s" % (sp if sp == "." else hx(sp), " ".join(hx(h) for h in hide)))
+            # print callbacks installed / removed at run time on top-level options (cfg_set_print_func)
+            pcb = set(o.name for _p, o in gen.all_opts(opts) if "r" in o.cbs)
+            tops = [o for o in opts if o.ty != "sec"]
+            for o in rng.sample(tops, min(len(tops), rng.choice([0, 0, 1, 2]))):
+                on = rng.random() < 0.6
+                lines.append("PFN 0 %s %d" % (hx(o.name), 1 if on else 0))
+                (pcb.add if on else pcb.discard)(o.name)
             lines += ["D 0", "PR 0"]
             for p in rng.sample(names, min(2, len(names))):
                 if "|" not in p:
                     lines.append("PO 0 " + hx(p))
-            cases.append(Case("f%d" % n, lines, {"filters": filters[:7], "names": names,
-                                                  "printcb": [o.name.encode() for _p, o in gen.all_opts(opts) if "r" in o.cbs]}))
+            cases.append(Case("f%d" % n, lines, {"filters": filters, "names": names, "early": len(early),
+                                                  "printcb": [x.encode() for x in sorted(pcb)]}))
             n += 1
     return cases
 
@@ -201,7 +216,8 @@ def nontrivial(case, model_lines):
 
 
 def stats(case, model_lines):
-    s = {"filters_%d" % min(3, len(case.meta["filters"])): 1}
+    s = {"filters_%d" % min(3, len(case.meta["filters"])): 1, "filter_before_sections_exist": case.meta.get("early", 0),
+         "runtime_print_callback_changes": sum(1 for l in case.lines if l.startswith("PFN "))}
     b = [l for l in model_lines if l.startswith("B ")]
     if b and b[0] != "B .":
         t = unhx(b[0][2:])
